@@ -27,9 +27,9 @@ import (
 	"strings"
 	"sync"
 	"time"
+	"verifharness/internal/metricsx"
 
 	"reservoir/config"
-	"reservoir/metrics"
 	"reservoir/proxy"
 	"reservoir/proxy/certs"
 	"reservoir/utils/bytesize"
@@ -202,7 +202,7 @@ func NewConfig(o Opts, cacheDir string) *config.Config {
 // New builds and starts a proxy.
 func New(o Opts) *Env {
 	o = o.withDefaults()
-	metrics.Global = metrics.NewMetrics()
+	metricsx.Reset()
 	dir, err := os.MkdirTemp("", "verif-cache-")
 	if err != nil {
 		panic(err)
